@@ -93,7 +93,29 @@ def run(ctx, r, ok, thorough):
     captured = {}
     orig_promote = sast.promote_wrap
 
+    def all_functions(node):
+        kind = type(node).__name__
+        out = []
+        if kind in ("LibraryNode", "NamespaceNode", "ClassNode"):
+            out += list(node.functions)
+            for cls in node.classes:
+                out += all_functions(cls)
+            if kind != "ClassNode":
+                for ns in node.namespaces:
+                    out += all_functions(ns)
+        return out
+
     def spy(node):
+        # implementation-only invariant (no model): after the generate phase no function node - original or
+        # generated clone - is wrapped for a language that its own options switch off
+        try:
+            for fn in all_functions(node):
+                for lang, opt in (("c", "wrap_c"), ("fortran", "wrap_fortran"), ("python", "wrap_python"), ("lua", "wrap_lua")):
+                    if getattr(fn.wrap, lang) and not getattr(fn.options, opt):
+                        captured.setdefault("flag_escapes", []).append(
+                            "%s (%s) has wrap.%s on although its option %s is false" % (fn.ast.name, getattr(fn, "_generated", None), lang, opt))
+        except Exception as e:  # noqa: keep the harness alive
+            captured.setdefault("flag_escapes_error", repr(e))
         captured["before"] = tree_tokens(node)
         res = orig_promote(node)
         captured["after"] = tree_flags_pre(node)
@@ -149,6 +171,8 @@ def run(ctx, r, ok, thorough):
             cfg, exc, out = shroudrun.run_inproc([y], d)
             if exc is not None or "before" not in captured:
                 continue
+            for esc in captured.get("flag_escapes", [])[:3]:
+                ctx.fail("c15:clone-wrapped-against-options:" + esc.split(" ")[0], esc, {"yaml": lib.yaml()})
             reqs.append("promote " + " ".join(captured["before"]))
             impl.append(" ".join(captured["after"]))
             libflags = captured["after"][0]
